@@ -4,11 +4,13 @@ import (
 	"fmt"
 	"math"
 	"reflect"
+	"strings"
 
 	"github.com/platinummonkey/go-concurrency-limits/core"
 	"github.com/platinummonkey/go-concurrency-limits/measurements"
 
 	"verif/mc"
+	"verif/vrt"
 )
 
 // C18 — measurement primitives compute what they name, reset cleanly and report changes. Mode S
@@ -385,7 +387,50 @@ func winModel() *mc.Model {
 	}
 }
 
+// c18Concurrent: a sample is added while another goroutine runs Update with the identity operation (and a
+// third reads). The identity leaves the value alone, so whatever the interleaving the instance must
+// end up summarising exactly the samples added — judged against a twin that received the same samples
+// sequentially. Only the kinds whose Update applies the operation to the stored value are used (the
+// moving averages re-add their value in Update, which the property does not pin down).
+func c18Concurrent(k c18Kind, prefill []float64, x float64) *mc.Scenario {
+	return &mc.Scenario{
+		Name:   "C18/concurrent/" + k.name,
+		Params: fmt.Sprintf("prefill=%v Add(%v) || Update(identity) || Get", prefill, x),
+		Body: func(xx *mc.Exec) {
+			a, twin := k.mk(), k.mk()
+			for _, v := range prefill {
+				a.Add(v)
+				twin.Add(v)
+			}
+			twin.Add(x)
+			var flag bool
+			ths := []*vrt.Thread{
+				vrt.GoL("add", func() { _, flag = a.Add(x) }),
+				vrt.GoL("update", func() { a.Update(func(v float64) float64 { return v }) }),
+				vrt.GoL("get", func() { a.Get() }),
+			}
+			vrt.Join(ths...)
+			xx.MarkConflict()
+			got, want := a.Get(), twin.Get()
+			xx.Observe("get=%v flag=%v", got, flag)
+			if got != want && !(math.IsNaN(got) && math.IsNaN(want)) {
+				xx.Fail("concurrent/sample-lost", "%s after %v: Add(%v) racing an identity Update left Get()=%v, the same samples added sequentially give %v", k.name, prefill, x, got, want)
+			}
+		},
+	}
+}
+
 func runC18(c *Ctx) {
+	for _, k := range c18Kinds() {
+		if k.fold != "min" && k.fold != "last" && !strings.HasPrefix(k.name, "ExponentialAverage") {
+			continue
+		}
+		for _, pre := range [][]float64{nil, {5}, {5, 2, 9, 2}} {
+			for _, x := range []float64{1, 7} {
+				c.Explore(c18Concurrent(k, pre, x), mc.Options{PreemptBound: c.Pick(2, 3), NoCache: true})
+			}
+		}
+	}
 	depth := c.Pick(6, 7)
 	for _, k := range c18Kinds() {
 		c.runBFS(c18Model(k), mc.BFSOptions{MaxDepth: depth, MaxStates: c.Pick(600000, 4000000)})
